@@ -65,6 +65,15 @@ func (e *Env) C(i int) bool            { k := fmt.Sprintf("C%d", i); e.Evs = app
 func (e *Env) L(i int) []struct{}      { k := fmt.Sprintf("L%d", i); e.Evs = append(e.Evs, k); return make([]struct{}, e.Lv[k]) }
 func (e *Env) S() string               { e.Evs = append(e.Evs, "S"); return e.Sv }
 func (e *Env) True() bool              { return true }
+func (e *Env) U(i int) string {
+	e.Evs = append(e.Evs, fmt.Sprintf("U%d", i))
+	if i == 2 {
+		return "javascript:alert(1)"
+	}
+	return "https://x.test/p?a=1&b=<2>"
+}
+func (e *Env) T1() string            { e.Evs = append(e.Evs, "T1"); return "color:red;margin:0" }
+func (e *Env) T2() map[string]string { e.Evs = append(e.Evs, "T2"); return map[string]string{"color": "blue"} }
 func (e *Env) ER(i int, raw string) string { e.Evs = append(e.Evs, fmt.Sprintf("E%d", i)); return exprValues[i] }
 func (e *Env) G()                      { e.Evs = append(e.Evs, "G") }
 func (e *Env) GS(s string)             { e.Evs = append(e.Evs, "G") }
